@@ -8,9 +8,9 @@ from engine import shimfs
 from engine.api import nt, conc, quiet
 
 # key universe: nested and sibling keys; ISDIR says what a key is when present
-U = ["a", "d", "d/x", "d/s", "d/s/y", "da"]
-ISDIR = [False, True, False, True, False, False]
-PARENT = {"a": "", "d": "", "d/x": "d", "d/s": "d", "d/s/y": "d/s", "da": ""}
+U = ["a", "d", "d/x", "d/s", "d/s/y", "da", "d/x.b"]       # nested, sibling, name-prefix pair d/da, extension pair d/x - d/x.b
+ISDIR = [False, True, False, True, False, False, False]
+PARENT = {"a": "", "d": "", "d/x": "d", "d/s": "d", "d/s/y": "d/s", "da": "", "d/x.b": "d"}
 IDX = {k: i for i, k in enumerate(U)}
 ROOT = "/srv/root"
 
